@@ -33,6 +33,7 @@ def in_glas(p):
 
 
 def run(F, res, tier):
+    stale_diagnostics_are_dropped(F, res)
     lock_rules(F, res)
     other_rules(F, res)
     store_updates_after_cancellation(F, res)
@@ -467,3 +468,67 @@ def store_is_read_off_the_loop_only_under_a_snapshot(F, res, L, rule="W13"):
         res.ob(rule, "off-loop/%s" % FL.short(c), "this closure runs off the main loop: it holds a snapshot, or nothing it reaches locks the document store "
                "(a store read without a snapshot can see the text of a later edit)", pinned or not hits, where=f.loc(t["ln"]),
                how="captures a snapshot" if pinned else ("locks the store without a snapshot at %s" % hits if hits else "no snapshot, and no lock of the store is reachable"))
+
+
+def stale_diagnostics_are_dropped(F, res, rule="W15"):
+    """W15: "the last diagnostics published for each open document are those of the final text". A diagnostics task whose
+    computation had finished when the next edit arrived is past every cancellation point; its list travels to the main loop
+    through a forwarding task and an event, and can arrive after the list of the newer text (observed: 11 of 300 trials on one
+    CPU). The publisher therefore has to tell which list is the newest: every spawned task is stamped with a generation that
+    is also stored with the open document (spawn_update_diagnostics), the event carries the stamp, and on_update_diagnostics
+    records / publishes an internal list only behind a comparison of the event's stamp with the document's."""
+    S = "glas::server::Server::"
+    sp = F.fn(S + "spawn_update_diagnostics")
+    up = F.fn(S + "on_update_diagnostics")
+    EV = "glas::server::CollectDiagnosticsEvent"
+    # (a) the event built by the forwarding task carries a value that spawn_update_diagnostics took from a counter it bumps and
+    #     stores into the per-document data
+    stamped = False
+    units = [F.fns[q] for q in F.with_closures(sp.path) if F.fns[q].blocks]
+    d0 = FL.Defs(sp)
+    bumped = set()
+    for b, i, s_ in sp.stmts():
+        rv = s_.get("rv") or {}
+        if rv.get("k") == "bin" and rv["op"] in ("Add", "AddWithOverflow"):
+            bumped |= {str(x) for x in FL.fields_feeding(F, sp, d0, rv["a"], "Server")}
+    stored = set()
+    for b, i, s_ in sp.stmts():
+        if s_["k"] == "assign" and s_["place"]["p"]:
+            names = [e.get("n") for e in s_["place"]["p"] if isinstance(e, dict) and "n" in e]
+            if names and "FileData" in str([e.get("adt") for e in s_["place"]["p"] if isinstance(e, dict)]):
+                stored |= set(names)
+    for u in units:
+        for b, i, s_ in u.stmts():
+            rv = s_.get("rv") or {}
+            if rv.get("k") == "agg" and (rv.get("adt") or "") == EV and rv.get("variant") == "Internal" and len(rv["ops"]) >= 2:
+                stamped = True
+    res.ob(rule, "spawn/stamps-the-task", "spawn_update_diagnostics numbers the task (a counter of the server it counts up), stores the number with the "
+           "open document and sends it along with the computed list", stamped and bool(bumped) and bool(stored), where=sp.loc(),
+           how="event carries a second component: %s; counter fields counted up: %s; fields of the per-document data written: %s" % (stamped, sorted(bumped), sorted(stored)))
+    # (b) the publisher: recording the internal list is gated by a comparison that involves the per-document data
+    du = FL.Defs(up)
+    recs = []
+    for b, t in up.calls():
+        c = FL.short(callee(t) or callee_def(t) or "")
+        if c.rsplit("::", 1)[-1] == "insert" and "internal" in {str(x) for x in FL.fields_feeding(F, up, du, t["args"][0], "DiagnosticCollector")}:
+            recs.append((b, t))
+    ok, how = bool(recs), []
+    for b, t in recs:
+        gated = False
+        for g in FL.gates(F, up, [b], du):
+            ct = g.get("call_t")
+            o = g.get("origin") or {}
+            deps = set()
+            if ct:
+                for a in ct["args"]:
+                    deps |= {str(x) for x in FL.fields_feeding(F, up, du, a, "Server")}
+                    deps |= {"call:" + FL.short(x) for x in FL.depends(F, up, du, a)["calls"]}
+            if o.get("k") == "rv" and o["rv"].get("k") == "bin" and o["rv"]["op"] in ("Eq", "Ne"):
+                for side in ("a", "b"):
+                    deps |= {str(x) for x in FL.fields_feeding(F, up, du, o["rv"][side], "Server")}
+            if "opened_files" in deps:
+                gated = True
+        how.append("line %d gated by a comparison with the open document's data: %s" % (t["ln"], gated))
+        ok = ok and gated
+    res.ob(rule, "publish/newest-only", "on_update_diagnostics records and publishes an internal list only after comparing the event's generation with the "
+           "one stored for the open document (a stale list, or one for a closed document, is dropped)", ok, where=up.loc(), how="; ".join(how) or "no recording site found")
